@@ -95,6 +95,43 @@ CHECKS["C14"] = {
     "technique": "inductive-step symbolic model checking against a reference transition function, z3 polynomial identities with sqrt reduction",
 }
 
+CHECKS["C03"] = {
+    "category": "other",
+    "text": "the property's own decomposition, each lemma decided by z3 on the real code: (1) Flow._log_prob is exactly base_log_prob(T(x,E(c))|E(c)) + logabsdet (term identity with uninterpreted transform/embedding), (2) every 1-D transformer is onto its target (end-points pinned, continuous across knots and at the tail junction, strictly increasing) and affine / linear / coupling / autoregressive maps have a total inverse with forward(inverse(y)) == y, (3) the base log-density is the Gaussian closed form with normaliser (D/2)log(2 pi). Change of variables and the Gaussian integral are named assumptions; the Jacobian part is C01.",
+    "design_ref": "DESIGN.md section 6, C03",
+    "technique": "decomposition into solver-decidable lemmas (term identity, z3 nlsat for onto-ness, polynomial identities) over the real code",
+}
+CHECKS["C05"] = {
+    "category": "other",
+    "text": "closed forms of the real log-densities as identities decided by z3: exact summation over {0,1}^D for the Bernoulli (and E[x]==mean()), Gaussian variable part + numerically checked constant for Standard/Diagonal/ConditionalDiagonal normals over event shapes [1],[2],[2,1], sampling structure log_prob(mu+sigma z)==logN(z)-sum log sigma, mean() value and shape, the MADE mixture density against prod_d sum_k pi N with the [N,F,M,3] layout; the KDE evaluator's constant and term evaluated against the mixture reference. uniform.py outside.",
+    "design_ref": "DESIGN.md section 6, C05",
+    "technique": "symbolic execution of the real log_prob / sample / mean + z3 polynomial identities in exp-atoms",
+}
+CHECKS["C12"] = {
+    "category": "other",
+    "text": "every catalogued transform (both directions), base distributions and a flow on a two-row batch of distinct symbols: on every feasible path (incl. all inside/outside patterns of spline tails) row r of the results mentions row r's symbols only, row 1 is row 0 renamed on mirrored paths, and the one-row run agrees; the library's own networks (ResidualNet, ConvResidualNet, MADE with batch-norm) run in a row-tagged taint domain.",
+    "design_ref": "DESIGN.md section 6, C12",
+    "technique": "symbolic execution on a two-row symbolic batch; term-level dependency / renaming checks per path (z3 for path feasibility); taint domain for library networks",
+}
+CHECKS["C13"] = {
+    "category": "other",
+    "text": "forward / inverse / log_prob / sample / transform_to_noise of every catalogued object on symbolic tensors with the caller's input passed as a view into a larger tensor: caller tensors (through view aliasing), all parameters and buffers are term-identical afterwards in eval mode, a repeated call returns identical terms, and in training mode only the documented normalisation statistics change; every in-place write is logged by the engine with the array it lands on.",
+    "design_ref": "DESIGN.md section 6, C13",
+    "technique": "symbolic execution with a mutation log and before/after term comparison per feasible path",
+}
+CHECKS["C15"] = {
+    "category": "other",
+    "text": "two real models built under different seeds, the second loaded from the first with the real state_dict / load_state_dict, all floating-point state shared as symbols: A(x)==B(x) for forward, inverse and log_prob decided per path by z3 - anything function-determining that does not travel in the state dict makes the terms differ. Seeds are sampled (2 / 5 pairs); parameters and inputs are symbolic.",
+    "design_ref": "DESIGN.md section 6, C15",
+    "technique": "differential symbolic execution of two real model instances with shared symbolic state + z3 polynomial identities",
+}
+CHECKS["C16"] = {
+    "category": "other",
+    "text": "PARTIAL: dual-number seeds on every input, context and parameter element carried through the real code (detach / .data / no_grad clear them): per path, no result depends on a seed without carrying a derivative w.r.t. it, and derivative-side finiteness obligations are decided by z3; the dual values are validated against torch.autograd on the real modules at random points (which also shows backward succeeds and every used parameter receives a finite gradient). Autograd-internal failure modes beyond those points and UMNN are outside.",
+    "design_ref": "DESIGN.md section 6, C16",
+    "technique": "forward-mode dual-number symbolic execution (gradient-flow check) + z3 obligations + autograd trace validation",
+}
+
 NOT_APPLICABLE = {
     "C19": "float32-vs-float64 agreement needs QF_FP terms for chains of mul/div/sqrt/exp/log at two precisions; a 6-op representative was undecided in 60 s by z3 5.1, cvc5 1.0.3 and cvc5 1.4.0, and exp/log have no FP theory (DESIGN section 7)",
 }
